@@ -1,8 +1,8 @@
 (** C02 — every scheduled event runs exactly once; nothing is lost, duplicated or invented. *)
 From Coq Require Import List ZArith NArith Bool Permutation.
 Import ListNotations.
-From GS Require Import Num NumZ EventLoop Kernel Heap.
-From GS.Proofs Require Import Aux EventLoopP KernelP DriveP HeapP.
+From GS Require Import HeapLoop Num NumZ EventLoop Kernel Heap.
+From GS.Proofs Require Import HeapLoopP Aux EventLoopP KernelP DriveP HeapP.
 
 (** Conservation over every history of schedule / pop / peek / clear / len operations: what
     was queued plus what was accepted is, as a multiset, what was popped plus what was cleared
@@ -105,6 +105,15 @@ Example C02_example :
   (length acc, length pop, length clr, el_len l') = (3, 2, 1, 0).
 Proof. vm_compute. reflexivity. Qed.
 
+(** The event loop as the code keeps it -- an array handled by heapq.heappush / heapq.heappop, peek
+    reading cell 0 ([HeapLoop.v], CPython's heapq transcribed in [Heap.v]) -- answers EVERY history of
+    schedule / pop / peek / clear / len / now calls exactly as the list-and-selection model the
+    theorems above are about; so they hold of the heap-based loop as well. *)
+Theorem C02_heap_based_loop_answers_as_the_model :
+  forall (F : Type) (A : ArithOps F), OrderLaws A -> forall (P : Type) (ops : list (el_op F P)),
+    snd (hl_run A (hl_init A) ops) = snd (el_run A (el_init A) ops).
+Proof. intros F A OL P. exact (hl_run_from_init A OL). Qed.
+
 Print Assumptions C02_conservation.
 Print Assumptions C02_len.
 Print Assumptions C02_exactly_once.
@@ -137,3 +146,4 @@ Proof. exact @heappop_none. Qed.
 Print Assumptions C02_heapq_push_conserves.
 Print Assumptions C02_heapq_pop_conserves.
 Print Assumptions C02_heapq_pop_fails_iff_empty.
+Print Assumptions C02_heap_based_loop_answers_as_the_model.
